@@ -349,7 +349,8 @@ func (res *Response) ReadFrom(r io.Reader) (n int64, err error) {
 
 			}
 			if ok {
-				ns, err := nc.Sendfile(f, lr.N)
+				// n is the limit of a LimitedReader, or 0 for the whole file.
+				ns, err := nc.Sendfile(f, n)
 				return ns, err
 			}
 		}
